@@ -2,7 +2,10 @@
 //!
 //!   parse <entry> <text> | <intended>     entry 0 = parse_simple_polynomial, 1 = SimplePolynomial::parse
 //!   eval  <entry> <spoly> <x>             entry 0 = eval_simple_polynomial, 1 = eval_univariate,
-//!                                          2 = eval_multivariate with one binding
+//!                                          2 = eval_multivariate with one binding named after the polynomial's
+//!                                          variable, 3 = one binding under another name, 4/5 = the point passed as
+//!                                          f32 / i32 where it is exact in that type, 6/7 = other binding containers
+//!   evalm <spoly> <k> {<name> <x>}*       eval_multivariate with k bindings (exactly one distinct name is required)
 //!   pe    <text> <x> | <intended>         parse then evaluate (oracle only)
 //!   class <code point>                    Rust's classification of one character
 //!
@@ -44,7 +47,10 @@ pub fn run(line: &str) -> Obs {
                 _ => SimplePolynomial::parse(&text),
             });
             match r {
-                Some(r) => Obs::plain(show_parsed(&r)),
+                Some(r) => {
+                    let verdict = parse_side_checks(&text, &r);
+                    Obs::with(show_parsed(&r), verdict)
+                }
                 None => Obs::with("panic".into(), Err("parser panicked".into())),
             }
         }
@@ -53,11 +59,68 @@ pub fn run(line: &str) -> Obs {
             let _tag = t.tok();
             let p = read_simple(&mut t);
             let x = t.f64();
+            let own = p.variable.map(|c| c.to_string()).unwrap_or_else(|| "x".to_string());
+            let other = if own == "q" { "w".to_string() } else { "q".to_string() };
             let r = catch(|| match entry {
                 0 => Ok(eval_simple_polynomial(x, &p)),
                 1 => p.eval_univariate(x),
-                _ => p.eval_multivariate(&vec![("x", x)]),
+                2 => p.eval_multivariate(&vec![(own.as_str(), x)]),
+                3 => p.eval_multivariate(&vec![(other.as_str(), x)]),
+                4 if (x as f32) as f64 == x => Ok(eval_simple_polynomial(x as f32, &p)),
+                4 => Ok(eval_simple_polynomial(x, &p)),
+                5 if x == x.trunc() && x.abs() < 2e9 => p.eval_univariate(x as i32),
+                5 => p.eval_univariate(x),
+                6 => {
+                    let mut m = std::collections::HashMap::new();
+                    m.insert(own.clone(), x);
+                    p.eval_multivariate(&m)
+                }
+                _ => p.eval_multivariate(&[(own.clone(), x)]),
             });
+            match r {
+                Some(r) => {
+                    // every other route to the same evaluation gives the same value, bit for bit
+                    let mut verdict = Ok(());
+                    let same = |a: &Result<f64, PolynomialError>, b: &Result<f64, PolynomialError>| match (a, b) {
+                        (Ok(a), Ok(b)) => a.to_bits() == b.to_bits() || (a.is_nan() && b.is_nan()) || a == b,
+                        (Err(a), Err(b)) => err_kind(a) == err_kind(b),
+                        _ => false,
+                    };
+                    if entry != 3 {
+                        let others = catch(|| {
+                            vec![
+                                ("eval_simple_polynomial", Ok(eval_simple_polynomial(x, &p))),
+                                ("eval_univariate", p.eval_univariate(x)),
+                                ("eval_multivariate", p.eval_multivariate(&vec![(own.as_str(), x)])),
+                            ]
+                        });
+                        match others {
+                            None => verdict = Err("another evaluation entry point panicked".to_string()),
+                            Some(v) => {
+                                for (name, o) in v {
+                                    if !same(&o, &r) {
+                                        verdict = Err(format!("entry {entry} gives {} but {name} gives {}", show_eval(&r), show_eval(&o)));
+                                    }
+                                }
+                            }
+                        }
+                    }
+                    Obs::with(show_eval(&r), verdict)
+                }
+                None => Obs::with("panic".into(), Err("evaluation panicked".into())),
+            }
+        }
+        "evalm" => {
+            let _tag = t.tok();
+            let p = read_simple(&mut t);
+            let k = t.usize();
+            let binds: Vec<(String, f64)> = (0..k)
+                .map(|_| {
+                    let n = t.string();
+                    (n, t.f64())
+                })
+                .collect();
+            let r = catch(|| p.eval_multivariate(&binds));
             match r {
                 Some(r) => Obs::plain(show_eval(&r)),
                 None => Obs::with("panic".into(), Err("evaluation panicked".into())),
@@ -84,6 +147,64 @@ pub fn run(line: &str) -> Obs {
         }
         other => panic!("unknown C01 request {other}"),
     }
+}
+
+/// Everything else the public API lets one see of a parse result must tell the same story: the free function on
+/// every accepted input type, the trait entry point, the `Deref<Target = [f64]>` view and `PartialEq<Vec<f64>>`.
+fn parse_side_checks(text: &str, r: &Result<SimplePolynomial, PolynomialError>) -> Result<(), String> {
+    let shown = show_parsed(r);
+    let owned: String = text.to_string();
+    let routes: Vec<(&str, Option<Result<SimplePolynomial, PolynomialError>>)> = vec![
+        ("parse_simple_polynomial(&str)", catch(|| parse_simple_polynomial(text))),
+        ("parse_simple_polynomial(&String)", catch(|| parse_simple_polynomial(&owned))),
+        ("parse_simple_polynomial(String)", catch(|| parse_simple_polynomial(owned.clone()))),
+        ("SimplePolynomial::parse", catch(|| SimplePolynomial::parse(text))),
+        ("spindalis::polynomials::parse_simple_polynomial", catch(|| spindalis::polynomials::parse_simple_polynomial(text))),
+    ];
+    for (name, o) in routes {
+        match o {
+            None => return Err(format!("{name} panicked")),
+            Some(o) => {
+                let so = show_parsed(&o);
+                // NaN-free results: the canonical texts are equal
+                if so != shown {
+                    return Err(format!("{name} answers `{so}`, the requested entry point `{shown}`"));
+                }
+            }
+        }
+    }
+    if let Ok(p) = r {
+        let cs = &p.coefficients;
+        let view: &[f64] = p; // Deref
+        if view.len() != cs.len() || p.len() != cs.len() || p.iter().count() != cs.len() || p.is_empty() != cs.is_empty() {
+            return Err("the slice view (Deref) has another length than the coefficient vector".into());
+        }
+        for k in 0..cs.len() {
+            if p[k].to_bits() != cs[k].to_bits() {
+                return Err(format!("p[{k}] = {:?} but the coefficient of power {k} is {:?}", p[k], cs[k]));
+            }
+        }
+        if cs.iter().all(|c| !c.is_nan()) {
+            if !(*p == cs.clone()) {
+                return Err("the polynomial is not == to its own coefficient vector".into());
+            }
+            // differing vectors: one item changed (each position), one item more, one item less
+            for k in 0..cs.len().min(64) {
+                let mut v = cs.clone();
+                v[k] = if v[k] == 0.0 { 1.0 } else { -v[k] };
+                if *p == v {
+                    return Err(format!("the polynomial is == to a vector that differs at position {k}"));
+                }
+            }
+            let mut longer = cs.clone();
+            longer.push(0.0);
+            let shorter = cs[..cs.len().saturating_sub(1)].to_vec();
+            if *p == longer || (!cs.is_empty() && *p == shorter) {
+                return Err("the polynomial is == to a vector of another length".into());
+            }
+        }
+    }
+    Ok(())
 }
 
 // ------------------------------------------------------------------------------------ generators
@@ -140,6 +261,27 @@ pub fn dec_spelling(rng: &mut Rng) -> (String, u64, u32) {
             (format!("{i}.{f}"), i * 10 + f, 1)
         }
     }
+}
+
+/// spellings of large magnitude or many digits: 13..19 significant digits before and after the point
+pub fn dec_spelling_wide(rng: &mut Rng) -> (String, u64, u32) {
+    let digits = 13 + rng.below(7) as u32; // 13..19 digits: below 10^19 < 2^64
+    let mant = 1 + rng.next() % (10u64.pow(digits) - 1);
+    let scale = match rng.below(4) {
+        0 => 0,
+        1 => digits,
+        2 => digits + rng.below(8) as u32,
+        _ => rng.below(digits as u64 + 1) as u32,
+    };
+    let m = format!("{mant}");
+    let text = if scale == 0 {
+        m
+    } else if (scale as usize) >= m.len() {
+        format!("{}.{}{}", if rng.chance(1, 2) { "0" } else { "" }, "0".repeat(scale as usize - m.len()), m)
+    } else {
+        format!("{}.{}", &m[..m.len() - scale as usize], &m[m.len() - scale as usize..])
+    };
+    (text, mant, scale)
 }
 
 pub struct GenTerm {
@@ -286,6 +428,216 @@ pub fn generate(seed: u64, thorough: bool, emit: &mut dyn FnMut(String)) {
             _ => rng.uniform(-4.0, 4.0),
         };
         emit(format!("eval {} {} {}", i % 3, req_simple(&p), rbits(x)));
+    }
+    eval_families(&mut rng, thorough, emit);
+    parse_families(&mut rng, thorough, emit);
+}
+
+/// every Unicode white-space character (`char::is_whitespace`)
+pub const ALL_SPACES: &[char] = &[
+    '\u{9}', '\u{a}', '\u{b}', '\u{c}', '\u{d}', ' ', '\u{85}', '\u{a0}', '\u{1680}', '\u{2000}', '\u{2001}', '\u{2002}', '\u{2003}',
+    '\u{2004}', '\u{2005}', '\u{2006}', '\u{2007}', '\u{2008}', '\u{2009}', '\u{200a}', '\u{2028}', '\u{2029}', '\u{202f}', '\u{205f}',
+    '\u{3000}',
+];
+/// alphabetic characters of every UTF-8 width and general category (letters, modifier letters, letter numbers,
+/// alphabetic marks); `pe` requests are judged by the oracle alone, so the model's class table is not involved
+pub const WIDE_LETTERS: &[char] = &[
+    'x', 'Z', 'k', 'µ', 'ª', 'é', 'Ω', 'ß', 'ˆ', 'ͅ', 'я', 'א', 'ع', 'あ', 'ｘ', 'Ｘ', '中', 'ǅ', 'Ⅳ', 'ⅷ', 'ⓐ', '𝑥', '𝔁', '𐐀', '𝟋',
+];
+
+fn eval_families(rng: &mut Rng, thorough: bool, emit: &mut dyn FnMut(String)) {
+    let vars: Vec<Option<char>> =
+        VAR_LETTERS.iter().map(|c| Some(*c)).chain([None, Some('𝑥'), Some('あ'), Some('q'), Some('w')]).collect();
+    let mut n_req = 0usize;
+    let mut req = |rng: &mut Rng, cs: Vec<f64>, x: f64, emit: &mut dyn FnMut(String)| {
+        let p = SimplePolynomial { coefficients: cs, variable: *rng.pick(&vars) };
+        emit(format!("eval {} {} {}", n_req % 8, req_simple(&p), rbits(x)));
+        n_req += 1;
+    };
+    // 1. every length just beyond the usual sizes (unrolled / chunked evaluation, exponent truncations at 2^8):
+    //    small exact coefficients, a non-zero last coefficient, points whose powers are exact
+    let mut lens: Vec<usize> = (0..=3).chain(13..=40).collect();
+    lens.extend([47, 48, 49, 63, 64, 65, 127, 128, 129, 255, 256, 257, 258, 300]);
+    for &n in &lens {
+        let pts: &[f64] = if n <= 65 { &[1.0, -1.0, 0.5, -0.5, 2.0, -2.0, 1.5, 0.0, -0.0, 0.75] } else { &[1.0, -1.0, 0.5, -2.0, 2.0, 0.0] };
+        for (j, &x) in pts.iter().enumerate() {
+            if !thorough && n > 40 && j % 2 == 1 {
+                continue;
+            }
+            let mut cs: Vec<f64> = (0..n)
+                .map(|k| match (k + j) % 5 {
+                    0 => 0.0,
+                    1 => rng.range(-9, 9) as f64,
+                    2 => rng.dyadic(64, 5),
+                    3 => (k % 7) as f64 - 3.0,
+                    _ => rng.range(1, 3) as f64,
+                })
+                .collect();
+            if n > 0 {
+                cs[n - 1] = if j % 2 == 0 { 1.0 } else { -3.0 };
+            }
+            req(rng, cs, x, emit);
+        }
+        // one term only, at the highest power
+        if n > 0 {
+            let mut cs = vec![0.0; n];
+            cs[n - 1] = 2.0;
+            req(rng, cs, if n % 2 == 0 { 0.5 } else { -2.0 }, emit);
+        }
+    }
+    // 2. points next to 1, -1 and 0 at every distance, tiny down to subnormal, huge; coefficients narrow and wide
+    let mut pts: Vec<f64> = vec![0.0, -0.0, 1.0, -1.0, 5e-324, -5e-324, f64::MIN_POSITIVE, 1e-310, f64::EPSILON, -f64::EPSILON, 1e-8, 1e-16];
+    for k in 1..=17 {
+        let d = 10f64.powi(-k);
+        pts.extend([1.0 + d, 1.0 - d, -1.0 + d, -1.0 - d]);
+    }
+    for k in (1..=30).chain([40, 60, 80, 100, 150, 200, 250, 300, 307, 308, 310, 320]) {
+        pts.extend([10f64.powi(-k), -10f64.powi(-k)]);
+    }
+    for k in [10, 15, 16, 17, 20, 30, 50, 75, 100, 150, 200, 300] {
+        pts.extend([10f64.powi(k), -10f64.powi(k)]);
+    }
+    for e in [-1074, -1022, -600, -200, -53, -52, 52, 53, 200, 511, 512, 600, 1023] {
+        pts.push(2f64.powi(e));
+    }
+    let reps = if thorough { 8 } else { 2 };
+    for &x in &pts {
+        for r in 0..reps {
+            let mut cs = crate::polyops::rand_coeffs(rng, if r % 2 == 0 { 4 } else { 12 });
+            if r % 2 == 1 {
+                for c in cs.iter_mut() {
+                    if rng.chance(1, 2) {
+                        *c = rng.uniform(1.0, 9.0) * 10f64.powi(rng.range(-60, 60) as i32) * if rng.chance(1, 2) { -1.0 } else { 1.0 };
+                    }
+                }
+            }
+            req(rng, cs, x, emit);
+        }
+        // a constant and a linear polynomial with a large slope: no shortcut near 0 or 1 may drop the slope
+        req(rng, vec![1.0, 1e30], x, emit);
+        req(rng, vec![-2.5], x, emit);
+    }
+    // 3. eval_multivariate with any number of bindings: exactly one distinct name is required
+    for i in 0..(if thorough { 2000 } else { 200 }) {
+        let var = *rng.pick(&vars);
+        let own = var.map(|c| c.to_string()).unwrap_or_else(|| "x".into());
+        let p = SimplePolynomial { coefficients: crate::polyops::rand_coeffs(rng, 6), variable: var };
+        let names: Vec<String> = match i % 8 {
+            0 => vec![],
+            1 => vec![own.clone()],
+            2 => vec!["other".into()],
+            3 => vec![own.clone(), own.clone()],
+            4 => vec![own.clone(), "y".into()],
+            5 => vec!["y".into(), own.clone()],
+            6 => vec![own.clone(), "y".into(), "z".into(), own.clone()],
+            _ => vec![String::new()],
+        };
+        let mut line = format!("evalm {} {}", req_simple(&p), names.len());
+        for n in &names {
+            line.push_str(&format!(" {} {}", req_string(n), rbits(rng.dyadic(64, 4))));
+        }
+        emit(line);
+    }
+}
+
+fn parse_families(rng: &mut Rng, thorough: bool, emit: &mut dyn FnMut(String)) {
+    let mut k = 0usize;
+    // 1. many terms (13..40 each, 100, 300), repeated powers included
+    let mut counts: Vec<usize> = (13..=40).collect();
+    counts.extend([64, 100, 255, 256, 257, 300]);
+    if thorough {
+        counts.extend([1000, 4096]);
+    }
+    for &n in &counts {
+        let var = *rng.pick(VAR_LETTERS);
+        let maxpow = *rng.pick(&[3u32, 12, 60]);
+        let terms: Vec<GenTerm> = (0..n).map(|_| gen_term(rng, var, maxpow)).collect();
+        let spacing = *rng.pick(&[0u64, 2, 5]);
+        let text = render(rng, &terms, spacing);
+        if n <= 300 {
+            // (longer sums nest the model's exact-decimal answer too deeply for the comparator: oracle only)
+            emit(format!("parse {} {} | {}", k % 2, req_string(&text), intended(&terms)));
+        }
+        emit(format!("pe {} {} | {}", req_string(&text), rbits(*rng.pick(&[1.0, -1.0, 0.5, 2.0])), intended(&terms)));
+        k += 1;
+    }
+    // 2. exponents beyond the usual ones, incl. the powers of two where a narrower integer type would wrap, long runs
+    //    of leading zeros, and coefficient spellings with 13..19 significant digits
+    let mut pows: Vec<u32> = (41..=300).step_by(if thorough { 1 } else { 7 }).collect();
+    pows.extend([127, 128, 129, 255, 256, 257, 511, 512, 1000, 1023, 1024, 1025, 4095, 4096, 32767, 32768, 32769, 65534, 65535, 65536]);
+    for &pw in &pows {
+        let var = *rng.pick(VAR_LETTERS);
+        let mut terms: Vec<GenTerm> = (0..1 + rng.below(3)).map(|_| gen_term(rng, var, 5)).collect();
+        let (sp, mant, scale) = if rng.chance(1, 2) { dec_spelling_wide(rng) } else { dec_spelling(rng) };
+        let zeros = "0".repeat(*rng.pick(&[0usize, 1, 2, 19, 20, 21, 40]));
+        terms.insert(
+            rng.below(terms.len() as u64 + 1) as usize,
+            GenTerm { neg: rng.chance(1, 2), mant, scale, pow: pw, text: vec![sp, var.to_string(), "^".into(), format!("{zeros}{pw}")] },
+        );
+        let spacing = *rng.pick(&[0u64, 3]);
+        let text = render(rng, &terms, spacing);
+        emit(format!("parse {} {} | {}", k % 2, req_string(&text), intended(&terms)));
+        if pw <= 1100 {
+            emit(format!("pe {} {} | {}", req_string(&text), rbits(*rng.pick(&[1.0, -1.0, 0.5, -0.5])), intended(&terms)));
+        } else {
+            // (1 +- 2^-14)^65536 = e^(+-4): the high power is far from negligible and far from overflow
+            emit(format!("pe {} {} | {}", req_string(&text), rbits(*rng.pick(&[1.0 + 2f64.powi(-14), 1.0 - 2f64.powi(-14), -1.0])), intended(&terms)));
+        }
+        k += 1;
+    }
+    for _ in 0..(if thorough { 5000 } else { 300 }) {
+        let var = *rng.pick(VAR_LETTERS);
+        let n = 1 + rng.below(4) as usize;
+        let terms: Vec<GenTerm> = (0..n)
+            .map(|_| {
+                let mut t = gen_term(rng, var, 9);
+                if !t.text.is_empty() && t.text[0].chars().next().map(|c| c.is_ascii_digit() || c == '.').unwrap_or(false) {
+                    let (sp, mant, scale) = dec_spelling_wide(rng);
+                    t.text[0] = sp;
+                    t.mant = mant;
+                    t.scale = scale;
+                }
+                t
+            })
+            .collect();
+        let spacing = *rng.pick(&[0u64, 4]);
+        let text = render(rng, &terms, spacing);
+        emit(format!("parse {} {} | {}", k % 2, req_string(&text), intended(&terms)));
+        emit(format!("pe {} {} | {}", req_string(&text), rbits(rng.dyadic(64, 4)), intended(&terms)));
+        k += 1;
+    }
+    // 3. any alphabetic variable (every UTF-8 width, letter numbers, modifier letters, alphabetic marks) and any Unicode
+    //    white space: parse + evaluate, judged by the oracle alone
+    assert!(WIDE_LETTERS.iter().all(|c| c.is_alphabetic()) && ALL_SPACES.iter().all(|c| c.is_whitespace()));
+    for (i, &var) in WIDE_LETTERS.iter().enumerate() {
+        for rep in 0..(if thorough { 12 } else { 3 }) {
+            let n = 1 + rng.below(5) as usize;
+            let terms: Vec<GenTerm> = (0..n).map(|_| gen_term(rng, var, 9)).collect();
+            // render with arbitrary white space between all tokens
+            let mut text = String::new();
+            let sp = |rng: &mut Rng, s: &mut String| {
+                for _ in 0..rng.below(3) {
+                    s.push(*rng.pick(ALL_SPACES));
+                }
+            };
+            for (j, t) in terms.iter().enumerate() {
+                sp(rng, &mut text);
+                if t.neg {
+                    text.push('-');
+                } else if j > 0 {
+                    text.push('+');
+                }
+                for tk in &t.text {
+                    if rep > 0 {
+                        sp(rng, &mut text);
+                    }
+                    text.push_str(tk);
+                }
+            }
+            sp(rng, &mut text);
+            let x = if (i + rep) % 3 == 0 { 2.0 } else { rng.dyadic(64, 4) };
+            emit(format!("pe {} {} | {}", req_string(&text), rbits(x), intended(&terms)));
+        }
     }
 }
 
